@@ -25,6 +25,22 @@ types = [
         field("byKey", mp(S, r("Color"))),
     ], P),
     union("Choice", [field("text", S), field("payload", r("Payload")), field("numbers", st(I))], P),
+    # generated types that hold bearer tokens: their Debug rendering must not show the token
+    alias("TokenAlias", prim("BEARERTOKEN"), P),
+    alias("TokenAliasAlias", r("TokenAlias"), P),
+    alias("OptTokenAlias", opt(prim("BEARERTOKEN")), P),
+    alias("TokenSetAlias", st(prim("BEARERTOKEN")), P),
+    obj("Credentials", [
+        field("token", prim("BEARERTOKEN")),
+        field("alias", r("TokenAlias")),
+        field("aliasAlias", r("TokenAliasAlias")),
+        field("maybe", r("OptTokenAlias")),
+        field("many", lst(r("TokenAliasAlias"))),
+        field("set", r("TokenSetAlias")),
+        field("byName", mp(S, prim("BEARERTOKEN"))),
+        field("byToken", mp(r("TokenAlias"), I)),
+    ], P),
+    union("Secret", [field("token", prim("BEARERTOKEN")), field("alias", r("TokenAliasAlias")), field("creds", r("Credentials"))], P),
 ]
 
 svc = service("UniversalService", [
@@ -98,6 +114,9 @@ svc = service("UniversalService", [
     endpoint("limitTib", "POST", "/u/limit/limitTib", [arg("body", S, "body")], returns=S, tags=["server-limit-request-size: 1 TiB"]),
     endpoint("limitTi", "POST", "/u/limit/limitTi", [arg("body", S, "body")], returns=S, tags=["server-limit-request-size: 2ti"]),
     endpoint("limitB", "POST", "/u/limit/limitB", [arg("body", S, "body")], returns=S, tags=["server-limit-request-size: 15b"]),
+    # an optional body on an endpoint that also carries a size-limit tag: absent stays absent
+    endpoint("limitOptional", "POST", "/u/body/limitopt", [arg("body", opt(r("Payload")), "body")], returns=opt(r("Payload")), tags=["server-limit-request-size: 1 kb"]),
+    endpoint("limitAliasOpt", "POST", "/u/body/limitaliasopt", [arg("body", r("OptStrAlias"), "body")], returns=r("OptStrAlias"), tags=["server-limit-request-size: 1 kb"]),
     endpoint("kbBody", "POST", "/u/body/kb", [arg("body", S, "body")], returns=S, tags=["server-limit-request-size: 1 kb"]),
     endpoint("kibBody", "POST", "/u/body/kib", [arg("body", S, "body")], returns=S, tags=["other-tag", "server-limit-request-size:2Ki"]),
     endpoint("safeMix", "GET", "/u/safe/{safePath}/{unsafePath}", [
@@ -111,6 +130,16 @@ svc = service("UniversalService", [
         arg("enumQuery", opt(r("Color")), "query", "color"),
         arg("unsafeEnumQuery", opt(r("Color")), "query", "ucolor", safety="UNSAFE"),
     ], auth="header"),
+    # tags and markers that merely look like the legacy safe ones: none of these arguments is safe
+    # except the last
+    endpoint("tagMix", "GET", "/u/tagmix/{plainPath}", [
+        arg("plainPath", S, "path", tags=["safety-review-pending"]),
+        arg("retryQuery", S, "query", "rq", tags=["safe-to-retry", "safe:"]),
+        arg("unsafeTagQuery", S, "query", "utq", tags=["unsafe", "notsafe"]),
+        arg("upperHeader", S, "header", "X-Upper", tags=["SAFE", "Safe", " safe"]),
+        arg("markerAlike", S, "query", "ma", markers=[external("Safe", "com.other", prim("ANY")), external("SafeArg", "com.palantir.logsafe", prim("ANY")), external("Unsafe", "com.palantir.logsafe", prim("ANY"))]),
+        arg("realSafe", S, "query", "rs", tags=["incubating", "safe"]),
+    ]),
     endpoint("safeBody", "POST", "/u/safebody/{id}", [
         arg("id", I, "path", safety="SAFE"),
         arg("body", r("Payload"), "body"),
@@ -133,6 +162,13 @@ svc = service("UniversalService", [
         arg("traceId", S, "header", "traceId", safety="SAFE"),
         arg("unsafeHeader", opt(I), "header", "unsafeHeader"),
     ]),
+    # path arguments declared in another order than the template uses them, a query argument between
+    endpoint("outOfOrder", "GET", "/u/ooo/{first}/mid/{second}/{third}", [
+        arg("third", I, "path"),
+        arg("second", S, "path"),
+        arg("q", opt(S), "query", "q"),
+        arg("first", S, "path"),
+    ], returns=S),
     endpoint("context", "GET", "/u/context", [arg("arg", opt(S), "query", "arg")], tags=["server-request-context"]),
     endpoint("noop", "POST", "/u/noop", []),
 ], P)
